@@ -1,10 +1,10 @@
 SPECIFICATION Spec
 CONSTANTS
-  CoreCfg = "two"
+  CoreCfg = "one"
   MaxStore = 4
   MaxDead = 1
-  MaxRev = 1
-  MaxBad = 0
-  MaxExtra = 0
+  MaxRev = 0
+  MaxBad = 1
+  MaxExtra = 1
 INVARIANTS Sound LocalEmpty Sufficient OnlyVerified
 CHECK_DEADLOCK FALSE
